@@ -179,7 +179,7 @@ pub fn search(what: &str, _seed: u64) -> Option<(Vec<u8>, String)> {
     let check: fn(&[u8]) -> Option<String> = match what {
         "lid" => lid_disagrees,
         "locale" => locale_disagrees,
-        "rt" | "inv" | "mut" | "fromparts" | "matches" | "serde" | "likely" | "super" => locale_disagrees,
+        "rt" | "inv" | "mut" | "fromparts" | "matches" | "serde" | "likely" | "super" | "ord" => locale_disagrees,
         _ => return None,
     };
     if what == "locale" { return search_locale(); }
@@ -191,6 +191,7 @@ pub fn search(what: &str, _seed: u64) -> Option<(Vec<u8>, String)> {
     if what == "serde" { return crate::bounded::serde_search(); }
     if what == "likely" { return crate::bounded::likely_search(); }
     if what == "super" { return crate::bounded::super_search(); }
+    if what == "ord" { return crate::bounded::ord_search(); }
     // sequences of up to 4 subtags: first from a small set of heads, rest from the alphabet
     let heads: Vec<Vec<u8>> = vec![b"en".to_vec(), b"und".to_vec(), b"EN".to_vec(), b"e".to_vec(), b"root".to_vec(), b"abcde".to_vec(), b"abcdefgh".to_vec()];
     let mut buf: Vec<u8> = vec![];
